@@ -284,10 +284,10 @@ func (tx *Tx) rangeScanOnDisk(bucket string, start, end []byte) ([]*Entry, error
 	newStart, newEnd := getNewKey(bucket, start), getNewKey(bucket, end)
 
 	for _, bptSparseIdx := range bptSparseIdxGroup {
-		if compare(newStart, bptSparseIdx.start) <= 0 &&
-			compare(bptSparseIdx.start, newEnd) <= 0 ||
-			compare(newStart, bptSparseIdx.end) <= 0 &&
-				compare(bptSparseIdx.end, newEnd) <= 0 {
+		// the file takes part when its key span [start, end] overlaps the
+		// requested range (a range strictly inside the span overlaps too)
+		if compare(newStart, bptSparseIdx.end) <= 0 &&
+			compare(bptSparseIdx.start, newEnd) <= 0 {
 
 			entries, err := tx.findRangeOnDisk(int64(bptSparseIdx.fID), int64(bptSparseIdx.rootOff), start, end, newStart, newEnd)
 
